@@ -32,5 +32,6 @@ From Chess3 Require Export Model.SuccStreams.
 From Chess3 Require Export Spec.SuccJudge.
 From Chess3 Require Export Spec.PerftSpec.
 From Chess3 Require Export Spec.C01Judge.
+From Chess3 Require Export Model.Search Model.SearchStreams Spec.SearchModelJudge.  (* closed search model: C06/C07/C08 *)
 
 Extraction Language OCaml.
